@@ -16,35 +16,35 @@ const METAS: &[PropMeta] = &[
     PropMeta {
         id: "C01",
         level: "exploration",
-        rule: "seeded Raft-legal histories (vote/append/truncate/purge/commit/user-data/flush) under a random chunk configuration; after EVERY operation the real store's state, read(0,MAX), 3 random sub-ranges and stat() are compared with an in-memory reference log. A case is one history; it is non-trivial if it journalled >=5 records and rotated chunks at least once; distinct = distinct (config, operation list).",
+        rule: "seeded Raft-legal histories (vote/append/truncate/purge/commit/user-data/flush) under a random chunk configuration; after EVERY operation the real store's state, read(0,MAX), 3 random sub-ranges and stat() are compared with an in-memory reference log. A case is one history; it is non-trivial if it journalled >=5 records and rotated chunks at least once; distinct = distinct (config, operation list). Histories also contain update_state (vote/commit/user-data change keeping last and purged) and read-only calls (dump, snapshot iteration, abandoned dump).",
         assumptions: &["reference model = plain in-memory Raft log written from the property statement", "payload cache limits left at defaults (cache pressure is C07)", "types: LogId=(u64,u64), payload=String"],
         min_distinct: 20,
     },
     PropMeta {
         id: "C02",
         level: "exploration",
-        rule: "histories as in C01 with clean restarts (flush, ack, worker idle, drop, open) at random positions and a NEW random configuration at every open; across each restart state, all entries and the Dump text must be unchanged and the continued history must keep agreeing with the reference log. Non-trivial = at least one restart and >=5 records; distinct = distinct (config, operation list).",
+        rule: "histories as in C01 with clean restarts (flush, ack, worker idle, drop, open) at random positions and a NEW random configuration at every open; across each restart state, all entries and the Dump text must be unchanged and the continued history must keep agreeing with the reference log. Non-trivial = at least one restart and >=5 records; distinct = distinct (config, operation list). Half of the histories use tiny cache limits at every open (never re-appending at or below a removed id), a third inject EIO into the n-th chunk-file creation by the caller (the runner follows what the store reports for the failed call), 4% of the steps are calls the specification refuses; the full-queue scenario (1024 flushes queued behind a parked worker + one blocked sender) ends with a clean restart.",
         assumptions: &["clean close = flush acknowledged and worker idle before drop (drop-without-idle is C14)"],
         min_distinct: 20,
     },
     PropMeta {
         id: "C06",
         level: "exploration",
-        rule: "histories as in C01 with calls the sequential specification rejects injected at ~25% of the steps (lower vote; append equal to last, lower term, at an existing index, with a gap; k-th entry of a batch refused; lower commit; truncate above last+1 / at or below purged). Around each such call: must return Err; state, all entries, cache item count/size, resident set, journal end, on-disk size unchanged; history continues in lock-step with the model; at the end flush + restart must open with the same state. Non-trivial = history with >=1 rejected call.",
+        rule: "histories as in C01 with calls the sequential specification rejects injected at ~25% of the steps (lower vote; append equal to last, lower term, at an existing index, with a gap; k-th entry of a batch refused; lower commit; truncate above last+1 / at or below purged). Around each such call: must return Err; state, all entries, cache item count/size, resident set, journal end, on-disk size unchanged; history continues in lock-step with the model; at the end flush + restart must open with the same state. Non-trivial = history with >=1 rejected call. Half of the histories use tiny cache limits (a refused call must not evict). A second Types instantiation with a PARTIALLY ordered vote (same term, different candidate = incomparable) checks that an incomparable vote is refused without trace and survives a restart.",
         assumptions: &["worker quiescent at the snapshot points", "a batch append is the sequence of its single-entry writes, stopping at the first refused entry"],
         min_distinct: 20,
     },
     PropMeta {
         id: "C11",
         level: "exploration",
-        rule: "histories as in C01; a reference journal predicts every chunk file byte-for-byte from the accepted records, the chunk limits and the rotation rule. After every flush+ack+idle: files on disk are a suffix of the predicted files and byte-identical, names = global offset of first record, files abut, on_disk_size() = journal end - oldest retained start, Dump (real decoder) = reference parse; after every write the returned segment = predicted place of that record; stat() bookkeeping = prediction. Non-trivial = >=1 rotation and >=5 records.",
+        rule: "histories as in C01; a reference journal predicts every chunk file byte-for-byte from the accepted records, the chunk limits and the rotation rule. After every flush+ack+idle: files on disk are a suffix of the predicted files and byte-identical, names = global offset of first record, files abut, on_disk_size() = journal end - oldest retained start, Dump (real decoder) = reference parse; after every write the returned segment = predicted place of that record; stat() bookkeeping = prediction. Non-trivial = >=1 rotation and >=5 records. Histories contain update_state and dump calls; a quarter inject EIO into a chunk-file creation and the reference journal models the rotation that did not happen; the full-queue scenario compares the files byte for byte after 1025 queued requests were drained.",
         assumptions: &["reference codec and rotation rule written from the format description", "file-name codec over all u64 is sampled, not exhaustive"],
         min_distinct: 20,
     },
     PropMeta {
         id: "C16",
         level: "exploration",
-        rule: "a Raft-legal history of 0-40 ops brings the store into a reachable state; then a burst of 6-16 public calls (truncate, read, purge, commit, append, save_vote, save_user_data, stat, on_disk_size, dump, dump_data iteration, flush, finally update_state) with arguments drawn from {0,1,2, purged/first/last/committed index -1,+0,+1,+2, 2^32-1, 2^32, 2^63, u64::MAX-1, u64::MAX} in term and index position, including from>to; every call and a full read-back run under catch_unwind in a build with overflow checks and debug assertions on. Non-trivial = case with >=3 adversarial calls; distinct = distinct (config, call list).",
+        rule: "a Raft-legal history of 0-40 ops brings the store into a reachable state; then a burst of 6-16 public calls (truncate, read, purge, commit, append, save_vote, save_user_data, stat, on_disk_size, dump, dump_data iteration, flush, finally update_state) with arguments drawn from {0,1,2, purged/first/last/committed index -1,+0,+1,+2, 2^32-1, 2^32, 2^63, u64::MAX-1, u64::MAX} in term and index position, including from>to; every call and a full read-back run under catch_unwind in a build with overflow checks and debug assertions on. Non-trivial = case with >=3 adversarial calls; distinct = distinct (config, call list). A second Types instantiation with a partially ordered vote checks save_vote with incomparable votes under catch_unwind.",
         assumptions: &["dev profile: overflow-checks and debug-assertions enabled", "a burst stops at the first call on which specification and store disagree about acceptance (that is C01/C06's subject), and after update_state"],
         min_distinct: 20,
     },
@@ -58,7 +58,7 @@ const METAS: &[PropMeta] = &[
     PropMeta {
         id: "C04",
         level: "fault_enumeration",
-        rule: "scheduled histories (tiny chunks, many flushes with and without callback, several flushes queued behind a parked worker, flushes right before/after rotations) in which the worker is stepped through its write/fdatasync/unlink calls by a seeded schedule, with fault plans: none / one failing fdatasync / two or three consecutive failing fdatasyncs / one failing, short or partial write / sync failure + short write. The recorded trace is replayed into a shadow file system (durable = snapshot at the last successful sync); at every Ack(Ok) event every byte journalled before that flush call must be durable in its chunk file; plus at-most-once, exactly-once without faults, callback order = call order, no Err without fault. Non-trivial = run with >=1 callback; distinct = distinct (thread, syscall kind, file) interleavings of the trace.",
+        rule: "scheduled histories (tiny chunks, many flushes with and without callback, several flushes queued behind a parked worker, flushes right before/after rotations) in which the worker is stepped through its write/fdatasync/unlink calls by a seeded schedule, with fault plans: none / one failing fdatasync / two or three consecutive failing fdatasyncs / one failing, short or partial write / sync failure + short write. The recorded trace is replayed into a shadow file system (durable = snapshot at the last successful sync); at every Ack(Ok) event every byte journalled before that flush call must be durable in its chunk file; plus at-most-once, exactly-once without faults, callback order = call order, no Err without fault. Non-trivial = run with >=1 callback; distinct = distinct (thread, syscall kind, file) interleavings of the trace. Also: a failing chunk-file creation by the caller; the full-queue scenario (exactly 1024 flushes, 2 MiB of payload in half of the rounds, queued behind a parked worker plus one sender blocked on the full queue) checked with the same rules.",
         assumptions: &["a failed fdatasync leaves durable state unchanged; a later successful fdatasync of the same file makes everything written to it durable", "journal end at the flush call is taken from stat().open_chunk.global_end (cross-checked byte-exactly by C11)"],
         min_distinct: 20,
     },
@@ -72,7 +72,7 @@ const METAS: &[PropMeta] = &[
     PropMeta {
         id: "C03",
         level: "fault_enumeration",
-        rule: "a scheduled history (tiny chunks, flushes/purges/rotations, worker stepped by a seeded schedule, sometimes a failing fdatasync) is run once under the syscall shim; for EVERY prefix of the recorded trace ending in a file-system call or an Ack(Ok) the synthesiser builds the post-crash images: process crash (all completed calls kept), inside the next write (cut at every record boundary + 3 interior bytes), power loss (per file every record boundary / 2 interior cuts / zero-fill from every boundary in the unsynced range; all-min, all-max, each file varied with the others at min and at max, random combinations). Each distinct image is opened by the real RaftLog::open; when it opens, (state, all entries) must equal the reference log after some prefix p of the accepted single-record writes with acked <= p <= issued. A case = one (crash point, image); distinct = distinct image contents that opened.",
+        rule: "a scheduled history (tiny chunks, flushes/purges/rotations, worker stepped by a seeded schedule, sometimes a failing fdatasync) is run once under the syscall shim; for EVERY prefix of the recorded trace ending in a file-system call or an Ack(Ok) the synthesiser builds the post-crash images: process crash (all completed calls kept), inside the next write (cut at every record boundary + 3 interior bytes), power loss (per file every record boundary / 2 interior cuts / zero-fill from every boundary in the unsynced range; all-min, all-max, each file varied with the others at min and at max, random combinations). Each distinct image is opened by the real RaftLog::open; when it opens, (state, all entries) must equal the reference log after some prefix p of the accepted single-record writes with acked <= p <= issued. A case = one (crash point, image); distinct = distinct image contents that opened. 40% of the histories carry a fault plan (one or two consecutive failing fdatasyncs, a short write, a failing chunk-file creation); a third of the no-rotation histories contain a 70 kB entry (zero-filled tails > 64 KiB).",
         assumptions: &["crash model of the statement: completed calls kept, unsynced bytes lost from any byte onward or zero-filled from a record boundary; directory entry creation/removal durable on return", "images on which open fails are C05's subject"],
         min_distinct: 50,
     },
@@ -86,42 +86,42 @@ const METAS: &[PropMeta] = &[
     PropMeta {
         id: "C07",
         level: "exploration",
-        rule: "scheduled histories under tiny payload-cache limits (max_items in {0,1,2,3,5,default}, capacity in {0,8,64,300,default}) with truncations, purges, rotations and restarts; the worker is stepped through its write / per-file fdatasync / unlink (/ack) calls and at EVERY point where it is parked or idle - data still buffered, queued, written-unsynced, older-file-synced, boundary moved, acked, unlinked - read(0,MAX), dump_data().iter() and a random sub-range must return exactly the reference log's entries without error; at random steps 4 reader threads read everything while the worker runs freely and must all see the same. Half of the histories never re-append with a lower term (no exemption possible there). Non-trivial = run in which reads were served from disk (cache misses > 0); distinct = distinct (config, interleaving).",
+        rule: "scheduled histories under tiny payload-cache limits (max_items in {0,1,2,3,5,default}, capacity in {0,8,64,300,default}) with truncations, purges, rotations and restarts; the worker is stepped through its write / per-file fdatasync / unlink (/ack) calls and at EVERY point where it is parked or idle - data still buffered, queued, written-unsynced, older-file-synced, boundary moved, acked, unlinked - read(0,MAX), dump_data().iter() and a random sub-range must return exactly the reference log's entries without error; at random steps 4 reader threads read everything while the worker runs freely and must all see the same. Half of the histories never re-append with a lower term (no exemption possible there). Non-trivial = run in which reads were served from disk (cache misses > 0); distinct = distinct (config, interleaving). Also: a failing chunk-file creation in a fifth of the histories; dump()/dump_data() calls inside the histories; process-crash / inside-write images taken around chunk-file creations are recovered under the same tiny limits and read after recovery, after drain and after three appends; the full-queue scenario ends with 'chunk closed, cache drained, read everything'.",
         assumptions: &["known finding D7 is matched only when the unreadable entry's log id is <= a log id removed by an earlier truncation and the error is 'Chunk not found ... open cache-miss read'"],
         min_distinct: 20,
     },
     PropMeta {
         id: "C15",
         level: "exploration",
-        rule: "same scheduled histories and cache limits as C07; at every point where the worker is parked or idle the hook verif_cache_resident() (resident (log id, size) list + boundary under the cache lock) is compared with stat(): item count, byte size, boundary; right after every append (worker parked/idle since before the call, so the boundary in force is the one observed) an over-limit cache must hold no resident id <= boundary; at the end (worker idle) drain_cache_evictable() must leave no resident id <= boundary, also after a reopen. Non-trivial = run with >10 observations; distinct = distinct (config, interleaving).",
+        rule: "same scheduled histories and cache limits as C07; at every point where the worker is parked or idle the hook verif_cache_resident() (resident (log id, size) list + boundary under the cache lock) is compared with stat(): item count, byte size, boundary; right after every append (worker parked/idle since before the call, so the boundary in force is the one observed) an over-limit cache must hold no resident id <= boundary; at the end (worker idle) drain_cache_evictable() must leave no resident id <= boundary, also after a reopen. Non-trivial = run with >10 observations; distinct = distinct (config, interleaving). The limits used are the CONFIGURED ones (and stat() must report them); in half of the runs three reader threads read continuously while the single drain call is made.",
         assumptions: &["hook H1 (feature verif-hooks) returns the cache map contents under its RwLock", "the limit clause is evaluated after appends only (the only writes that insert and evict)"],
         min_distinct: 20,
     },
     PropMeta {
         id: "C14",
         level: "exploration",
-        rule: "purge-heavy scheduled histories (tiny chunks) end with purge + flush(callback); the worker is stepped exactly until that callback has fired, which typically leaves it parked in front of its queued unlink/write calls; the store is then dropped on a helper thread and the directory reopened at a seeded placement: 0 right after drop returned, 1 after the old worker advanced k calls, 2 with the new opener parked inside open() (after listing the directory) while the old worker performs its remaining calls, 3 after the old worker ended. Oracles: no directory-mutating call of the dropped instance's worker thread appears in the trace after drop() returned; the reopen succeeds and shows exactly the acknowledged state and entries; the new instance appends, purges, flushes and is acknowledged Ok. Sound for a detached worker and for a joining Drop (then drop only returns once the released worker has ended). Non-trivial = case in which worker calls were still pending at drop; distinct = distinct (history, schedule, placement).",
+        rule: "purge-heavy scheduled histories (tiny chunks) end with purge + flush(callback); the worker is stepped exactly until that callback has fired, which typically leaves it parked in front of its queued unlink/write calls; the store is then dropped on a helper thread and the directory reopened at a seeded placement: 0 right after drop returned, 1 after the old worker advanced k calls, 2 with the new opener parked inside open() (after listing the directory) while the old worker performs its remaining calls, 3 after the old worker ended. Oracles: no directory-mutating call of the dropped instance's worker thread appears in the trace after drop() returned; the reopen succeeds and shows exactly the acknowledged state and entries; the new instance appends, purges, flushes and is acknowledged Ok. Sound for a detached worker and for a joining Drop (then drop only returns once the released worker has ended). Non-trivial = case in which worker calls were still pending at drop; distinct = distinct (history, schedule, placement). Five placements (4 = an opener already under way when the drop starts, parked at the gate point 'about to open LOCK' and released after drop() returned); one case in five keeps the old worker parked for 400 ms before releasing it; 0-3 appends are issued after the last acknowledged flush without flushing (after the reopen any prefix >= the acknowledged state is accepted); in half of the cases an open is attempted while drop() is in progress with the worker parked (must be refused).",
         assumptions: &["a 50 ms wait decides only when the parked worker is released, never a verdict", "same-process reopen; cross-process reopen differs only in the flock, which C13 covers"],
         min_distinct: 20,
     },
     PropMeta {
         id: "C09",
         level: "fault_enumeration",
-        rule: "clean images (1-6 chunk files) are produced by the store itself from generated histories; then EVERY byte position inside every complete record of every chunk file is replaced (quick: the 8 single-bit flips, 0x00, 0xFF and 2 random values; thorough: all 255 other values, images marked exhaustive) and every middle chunk is removed. Each mutated image is opened by the real store under catch_unwind: it must not panic; it must refuse (or report an error when reading every entry) - an open that succeeds without any error is a violation whether or not state/entries differ; when open refuses, every chunk file other than the newest must be byte-identical afterwards. Mutations are classified by the reference codec (field: type tag/version/option tag/integer/length prefix/bytes/checksum; head snapshot vs other record; newest vs older chunk). A case = one mutated image opened; distinct = distinct clean images swept.",
+        rule: "clean images (1-6 chunk files) are produced by the store itself from generated histories; then EVERY byte position inside every complete record of every chunk file is replaced (quick: the 8 single-bit flips, 0x00, 0xFF and 2 random values; thorough: all 255 other values, images marked exhaustive) and every middle chunk is removed. Each mutated image is opened by the real store under catch_unwind: it must not panic; it must refuse (or report an error when reading every entry) - an open that succeeds without any error is a violation whether or not state/entries differ; when open refuses, every chunk file other than the newest must be byte-identical afterwards. Mutations are classified by the reference codec (field: type tag/version/option tag/integer/length prefix/bytes/checksum; head snapshot vs other record; newest vs older chunk). A case = one mutated image opened; distinct = distinct clean images swept. Additionally: bytes of live entries in closed chunks are altered underneath an OPEN store with an empty cache and the entry is read (must error or return what was written); a sample of the mutations is also opened with truncate_incomplete_record=false (must be refused, files untouched) and listed with the offline Dump tool (must show an error, not a shorter journal).",
         assumptions: &["CRC-32 detects every single-byte change, so no single-byte mutation is semantically neutral", "known findings D11a/D11b are matched only by their exact witness signatures"],
         min_distinct: 4,
     },
     PropMeta {
         id: "C10",
         level: "fault_enumeration",
-        rule: "clean images as in C09; the newest chunk is cut at EVERY byte position 0..=len, and its tail from EVERY record boundary is replaced by zeros of length {1,2,3,7,8,19,20,21,27,28,29,64,1023,1024,1025,33792}. With tail truncation enabled: open must succeed, state and entries must equal the reference replay of exactly the records completely present, afterwards no file may keep a damaged tail and the damaged file must end at the last complete record, the directory must replay to the same state, and 5 further writes + flush + restart must agree with the model. With truncate_incomplete_record=false: an image with an incomplete/zero tail must be refused with every file untouched; a cut exactly on a record boundary must open with exactly the records present. A case = one open; distinct = distinct clean images.",
+        rule: "clean images as in C09; the newest chunk is cut at EVERY byte position 0..=len, and its tail from EVERY record boundary is replaced by zeros of length {1,2,3,7,8,19,20,21,27,28,29,64,1023,1024,1025,33792}. With tail truncation enabled: open must succeed, state and entries must equal the reference replay of exactly the records completely present, afterwards no file may keep a damaged tail and the damaged file must end at the last complete record, the directory must replay to the same state, and 5 further writes + flush + restart must agree with the model. With truncate_incomplete_record=false: an image with an incomplete/zero tail must be refused with every file untouched; a cut exactly on a record boundary must open with exactly the records present. A case = one open; distinct = distinct clean images. Zero-tail lengths also 65536, 65537, 70000, 200000. Half of the continuations run under a tiny cache with drain_cache_evictable() after recovery and after every write (images built from histories that never re-append at or below a removed id).",
         assumptions: &["an empty newest chunk file (cut at 0) counts as cut on a boundary"],
         min_distinct: 4,
     },
     PropMeta {
         id: "C13",
         level: "exploration",
-        rule: "a directory holding a clean store-made image (data, nothing pending) is contended for by 2-8 threads of one process and by 2-6 child processes, each looping {RaftLog::open or Dump::new (1 in 3); if Ok: use it (read all entries / dump), hold briefly, drop}. Threads: an atomic owner counter incremented after open returned Ok and decremented before drop starts must never exceed 1. Processes: ownership intervals [after open Ok, before drop] on CLOCK_MONOTONIC are merged offline and must not overlap. After every refused attempt (threads) and at the end (both) the chunk files must be byte-identical to the original image; after all contenders are gone open must succeed. A case = one attempt (acquisition or refusal); distinct = rounds in which both acquisitions and refusals were observed.",
+        rule: "a directory holding a clean store-made image (data, nothing pending) is contended for by 2-8 threads of one process and by 2-6 child processes, each looping {RaftLog::open or Dump::new (1 in 3); if Ok: use it (read all entries / dump), hold briefly, drop}. Threads: an atomic owner counter incremented after open returned Ok and decremented before drop starts must never exceed 1. Processes: ownership intervals [after open Ok, before drop] on CLOCK_MONOTONIC are merged offline and must not overlap. After every refused attempt (threads) and at the end (both) the chunk files must be byte-identical to the original image; after all contenders are gone open must succeed. A case = one attempt (acquisition or refusal); distinct = rounds in which both acquisitions and refusals were observed. Plus: a WRITING owner whose caller thread and worker are stepped through their file-system calls by the gate, with RaftLog::open + Dump::new attempted at every parked point (must be refused; any chunk-file mutation by the contender's thread id in the trace is a violation); an open attempt while the previous owner's drop() has not returned and its worker is parked (must be refused while that worker thread is alive); a fork round (a child forked while the owner was alive still holds inherited descriptors; after the owner is dropped the next open must succeed).",
         assumptions: &["one host, local file system (tmpfs); flock semantics of Linux", "owners do not write, so any change of a chunk file is attributable to an attempt"],
         min_distinct: 8,
     },
